@@ -82,7 +82,7 @@ CLAIMED = {
         text=("proof, partial: proved — the coded chemical potential depends on densities only; the species rows of the Newton system are the identity "
               "(mu_i+(A lam)_i)/kT = sum(N')/sum(N) - N'_i/N_i; a fixed point of the iteration is exactly a state with mu = -(A lam); such a state balances every "
               "reaction (A^T nu = 0 => nu.mu = 0) and hence satisfies the Saha / Guldberg-Waage ratios, and it is the global minimum of the ideal Gibbs function over all compositions "
-              "with the same element and charge totals (Gibbs' inequality). NOT proved: that the floating-point iteration reaches "
+              "with the same element and charge totals (Gibbs' inequality), and the only such state (strict form: two fixed points with the same species data, T, P and constraint totals have the same number densities); the stopping quantity bounds the relative Newton step of every species above 1e-7 of the most abundant one, and a species whose last relative step is <= eps sits within (eps2 + eps/(1-eps)) kT of mass action. NOT proved: that the floating-point iteration reaches "
               "the fixed point for every input (the stopping rule bounds only the last Newton step of the resolved species); the residual of every un-warned returned composition "
               "is tested at the floor the stopping rule resolves (1e-8 kT above x=1e-5, 1e-6 down to 1e-7) with mu evaluated both by the extracted model kernels and from an independent "
               "documented-sum oracle; thm/C07.v (kernels = documented partition functions) is discharged as a prerequisite."),
@@ -95,7 +95,7 @@ CLAIMED = {
               "the last stopping quantity was a finite number <= rtol reached within max_iter; a non-finite stopping quantity never ends an attempt as converged; "
               "every attempt performs at most max_iter+1 iterations. Positivity/constraints of un-warned returns: C02. NOT proved (tested): convergence of the "
               "shipped mixtures inside the documented window under default controls (grid), start-estimate independence and rtol tightening (species with "
-              "x>1e-5 agree to 1e-5), no silent failure over T 200..6e4 K, P 1e2..1e8 Pa."),
+              "x>1e-5 agree to 1e-5), no silent failure over T 200..6e4 K, P 1e2..1e8 Pa. In thm/C06_start.v (over R): the fixed point is unique for the ideal mixture, so the limit cannot depend on the starting estimate, and a stopping quantity <= rtol bounds the last relative step of every resolved species; histories: objects moved from a cold state to a much hotter one must agree with fresh objects."),
         note=("Trusted: Coq kernel (closed under the global context); hand-written Retry.v tied by replaying recorded stopping quantities (hook) incl. NaN cases "
               "and small max_iter; extraction."),
         ref="§3-C06"),
@@ -106,7 +106,7 @@ CLAIMED = {
               "between states with the same constant are those of the independent formula (theorem; sameness of the constant checked per pair); the reference-energy "
               "model implements 'neutral atoms 0, molecules -D, each positive ion = previous listed stage + its IE - its lowering, each negative ion = next stage - "
               "own IE + own lowering' (theorems about the hand model, which is tied to the code by recorded E0/dE/mu and tested against an independent chain oracle); "
-              "heat capacity = centred difference (C03 effect summary + comparison with fresh mixtures)."),
+              "heat capacity: calculate_heat_capacity is regenerated from the source with the enthalpy as an oracle and proved equal to (H(T(1+d))-H(T(1-d)))/(2dT), default d = 1/1000, exact on quadratics, = H'(xi) for some xi in between (mean-value theorem); the oracle calls being enthalpies of the current inputs is the C03 effect summary; the regenerated model is run on the enthalpies and temperatures recorded inside the implementation's own call, and compared with fresh mixtures."),
         note=("Trusted: Coq kernel; Reals axioms as printed; translator; RefEnergy.v hand-written (declarative: nearest listed stage; distinct (stoichiometry, charge) "
               "pairs) tied by the hook; composition / E0 / dE enter the kernels as parameters (freshness: C03)."),
         ref="§3-C09"),
@@ -114,7 +114,7 @@ CLAIMED = {
         technique="Coq theorems (b linear in x0, scale invariance of densities and chemical potentials) + generator check that x0 is read only for element totals + tested pairs of equivalent x0",
         text=("proof, partial: proved — the element totals are 1e24*sum c_ik x0_i and scale with x0; x0 enters the linear system only through them (and the code reads "
               "x0 nowhere else: syntactic check on every run); scaling all particle numbers leaves densities and chemical potentials unchanged and scales constraint "
-              "totals, so fixed points for c*b are c times those for b with the same densities. NOT proved: uniqueness of the fixed point / that both runs converge to "
+              "totals, so fixed points for c*b are c times those for b with the same densities; the fixed point is unique for the ideal mixture (strict Gibbs inequality). NOT proved: that both runs converge to "
               "it; equivalent x0 (scaled, arbitrary single-element x0, molecule redistributed to its atoms) are compared on all outputs on the implementation."),
         note="Trusted: as C02; effects.py syntactic check; tolerances follow the solver's resolution (species to 1e-6+1e-10/x, scalars 1e-5, Cp and thermal conductivity 1e-4).",
         ref="§3-C04"),
@@ -142,7 +142,7 @@ CLAIMED = {
               "Uint kernel tied to the implementation on the ladders through the extracted model."),
         ref="§3-C10"),
     "C11": dict(
-        technique="Coq theorems: every Devoto block regenerated from functions_transport.py equals the first-principles matrix element built from bracket-integral tables (generating function), for any number of species / masses / densities / collision integrals; rigid-sphere Chapman-Cowling ratios from the tables",
+        technique="Coq theorems: every Devoto block regenerated from functions_transport.py equals the first-principles matrix element built from bracket-integral tables (generating function), for any number of species / masses / densities / collision integrals; rigid-sphere Chapman-Cowling ratios from the tables; right-hand sides and final formulae of viscosity / DTi / Dij / electrical_conductivity / thermal_conductivity regenerated from the source and proved equal to the assembly model",
         text=("proof (coefficients full; one recorded finding): the eight upper q blocks q00,q01,q02,q03,q11,q12,q13,q33, the three qhat blocks and the six mass-ratio "
               "transposes q10,q20,q30,q21,q31,qhat10, as regenerated from the source on every run, are proved equal to sqrt(m_i) sum_l n_i n_l (delta_ij [.,.]' + "
               "delta_jl [.,.]'') with the brackets from tables derived from the Chapman-Enskog generating function, for all nb, masses > 0, densities and "
